@@ -62,6 +62,7 @@ def run_program(prog, flavours=("sync",), model=None, link_to=False, compare_tre
     times, steps, ok, tree_reason = {}, [], True, None
     raced = False
     content_bad = []
+    direct_bad = []
     layout_bad = None
     try:
         for idx, op in enumerate(prog):
@@ -115,6 +116,10 @@ def run_program(prog, flavours=("sync",), model=None, link_to=False, compare_tre
                 break
             else:
                 reason = O.results_equal(cm, ci, times)
+            dv = _direct(op, ci, obs)
+            if dv is not None and reason is None:
+                reason = "direct oracle: " + dv
+                direct_bad.append(f"step {idx} ({op['op']}): {dv}")
             steps.append((op, cm, ci + ((r.get("msg"),) if ci[0] in ("panic", "err") else ()), reason, obs))
             if reason is not None:
                 ok = False
@@ -141,7 +146,7 @@ def run_program(prog, flavours=("sync",), model=None, link_to=False, compare_tre
         if own_model:
             m.close()
         shutil.rmtree(base, ignore_errors=True)
-    return {"steps": steps, "tree": tree_reason, "ok": ok, "raced": raced, "content_bad": content_bad, "layout_bad": layout_bad}
+    return {"steps": steps, "tree": tree_reason, "ok": ok, "raced": raced, "content_bad": content_bad, "layout_bad": layout_bad, "direct_bad": direct_bad}
 
 def compare_trees(m, cache, ext, times):
     first, extra = m.cmd("dump")
@@ -168,6 +173,25 @@ def _digest_matches(addr, data):
     import base64
     from . import hashes
     return addr is not None and addr[1] == base64.b64encode(hashes.digest(addr[0], data)).decode()
+
+def _direct(op, ci, obs):
+    """property-level oracles on one call that need no model (C01 / C18): what a checked retrieval handed out or left at
+    the destination"""
+    if not obs or ci is None or "observe_error" in obs:
+        return None
+    o = op["op"]
+    if o in ("read", "read_hash"):
+        return "a checked read returned bytes whose digest is not the address of the entry" if obs.get("digest_ok") is False else None
+    if o in ("copy", "hard_link", "reflink") and obs.get("checked"):
+        if ci[0] == "ok" and obs.get("dest_digest_ok") is False:
+            return "a checked extraction reported success but the destination does not carry the digest of the entry's address"
+        if ci[0] == "ok" and not obs.get("dest_exists", True):
+            return "an extraction reported success but there is no file at the destination"
+        if ci[0] == "ok" and obs.get("count_ok") is False:
+            return "copy returned a byte count different from the length of the destination file"
+        if ci[:2] == ("err", "Integrity") and obs.get("dest_exists") and (not obs.get("dest_existed") or obs.get("dest_changed")):
+            return "a checked extraction failed verification but left / replaced a file at the destination"
+    return None
 
 def _observe_pre(op, cache, ext):
     if op["op"] in ("copy", "hard_link", "reflink"):
